@@ -84,8 +84,9 @@ class World:
                 hvv, d['hv'] = self.replica_commit(f'{tag}_hv', g, e); hv = some(hvv)
             if ex.choose(2, f'{tag}_hq') == 0:
                 hqv, d['hq'] = self.commit_qc(f'{tag}_hq', own=True); hq = some(hqv)
-                # a genuine timeout certificate only carries certificates of earlier views
-                ex.assume(d['hq']['view'].e < v.e)
+                # NO assumption relates the carried certificate's view to the timeout certificate's: neither ReplicaTimeout::verify nor
+                # TimeoutQC::verify compares them, so a Byzantine signer can make a verifying timeout certificate carry a genuine commit
+                # certificate of a LATER view (an earlier version assumed hq.view < view and so under-explored the adversary)
             msg = self.mkr.adt(V + r'v2::replica_timeout::ReplicaTimeout', view=self.view(g, v, e), high_vote=hv, high_qc=hq)
             entries.append((msg, self.mkr.tuple_struct(V + r'v2::consensus::Signers', M.BitVecV([True] * self.N))))
         tqc = self.mkr.adt(V + r'v2::replica_timeout::TimeoutQC', view=self.view(g, v, e), map=MapV(entries, ordered=True), signature=QCGhost(valid, tag))
@@ -115,16 +116,19 @@ class World:
         cqc = none(); tqc = none()
         if light or ex.choose(2, 'st_cqc') == 0:
             c, st['cqc'] = self.commit_qc('st_cqc', own=True); cqc = some(c)
-            ex.assume(st['cqc']['view'].e < view.e)
         if not light and ex.choose(2, 'st_tqc') == 0:
             t, st['tqc'] = self.timeout_qc('st_tqc', own=True, with_votes=False); tqc = some(t)
             ex.assume(st['tqc']['view'].e < view.e)
-        # reachable-state invariant: a view above 0 is justified by a certificate of the preceding view
-        if st['cqc'] is None and st['tqc'] is None:
-            ex.assume(view.e == 0)
-        else:
-            mx = [x['view'].e for x in (st['cqc'], st['tqc']) if x is not None]
-            ex.assume(z3.Or(*[m + 1 == view.e for m in mx]))
+        # reachable-state invariant (INDUCTIVE: replica_checks.check_path demands it again of every post-state): a view above 0 was
+        # entered on a certificate of the preceding view, which the replica still holds unless a later one replaced it. The held
+        # timeout certificate is always of an earlier view; the held COMMIT certificate may be of ANY view >= view - 1: a
+        # timeout vote may carry a genuine commit certificate of a later view (the specification does not require the
+        # receiver to refuse it), and process_timeout_qc adopts it while the replica only advances to the view after the
+        # timeout certificate. (An earlier version assumed cqc.view < view; the inductiveness obligation refuted it.)
+        just = [view.e == 0]
+        if st['tqc'] is not None: just.append(st['tqc']['view'].e + 1 == view.e)
+        if st['cqc'] is not None: just.append(st['cqc']['view'].e + 1 >= view.e)
+        ex.assume(z3.Or(*just))
         cfg = mkb.adt(r'zksync_consensus_bft::config::Config', engine_manager=BoxV(Opaque('engine_manager')), secret_key=Opaque('my_secret_key'),
                       max_payload_size=Num(1 << 20, 64), view_timeout=Opaque('view_timeout'), epoch=self.mkr.tuple_struct(V + r'consensus::EpochNumber', self.e0),
                       first_block=self.mkr.tuple_struct(V + r'block::BlockNumber', self.first_block), validators=self.sched)
